@@ -28,6 +28,11 @@ CHECKS = {
    text="EMA/DMA/TMA/DEMA/TEMA/RMA/WSMA/TSI/Vidya/TR/HeikinAshi/Integral(0)/ADI(0) against their documented recurrences at every step of generated streams, all lengths, (short,long) grid for TSI, plateau-after-movement regimes counted.",
    note="Trusted: reference recurrences in props/c03.rs; K=256. Vidya/TSI steps with an ill-conditioned ratio are checked by a hull predicate only (counted).",
    ref="DESIGN.md §5 C03"),
+ "C14": dict(
+   technique="PBT + bounded-exhaustive enumeration against definitional predicates (exact)",
+   text="Crossing detectors on generated pairs of streams with touches, zero runs, sign alternation, +-1 ulp differences and both constructors, decided on the computed difference; reversal detectors exhaustively for all (left,right) in 1..=4^2 over all short ternary streams, by proptest for random (left,right) up to the limit with plateaus/equal peaks, and on streams of 3000 (thorough 70000) steps, far beyond PeriodType::MAX.",
+   note="Trusted: the newest-wins arg-extremum reference (prehistory = first input). Exact comparison of Actions.",
+   ref="DESIGN.md §5 C14"),
 }
 
 PENDING = {
